@@ -124,6 +124,14 @@ def one_base(ctx, shard, i, rng):
         P = {kk: (v + float(int(rng.integers(1, 8))) / 8.0 if v else 0.0) for kk, v in P.items()}
     d = ctx.newdir()
     base = os.path.join(d, "base.cool")
+    path_reused = bool(rng.random() < 0.3)
+    if path_reused:
+        # history: the base path held ANOTHER cooler (other bin table) that was coarsened in this process before
+        import cooler
+        pre_bt = gen.gen_bt(rng, None, max_chroms=3, max_bins=9)
+        make_cooler(base, pre_bt, gen.gen_pixels(rng, gen.bt_nbins(pre_bt), symm, "sparse70") or {(0, 0): 1}, symm=symm)
+        cooler.coarsen_cooler(base, os.path.join(d, "pre.out.cool"), 2, chunksize=10**6)
+        os.remove(os.path.join(d, "pre.out.cool"))
     make_cooler(base, bt, P, symm=symm, extra={"score": E} if two else None,
                 count_dtype=np.float64 if float_counts else None)
     legacy = bool(symm and rng.random() < 0.2)
@@ -163,6 +171,8 @@ def one_base(ctx, shard, i, rng):
             desc = dict(base_desc, factor=k, chunksize=cs, schedule=[kind, arg], agg=agg)
             with ctx.case(cid, desc) as c:
                 c.feature(f"mode:{'symm' if symm else 'square'}", f"family:{fam}", f"chunksize:{cs if cs < 4 else 'big'}")
+                if path_reused:
+                    c.feature("history:base-path-held-another-cooler-that-was-coarsened")
                 if k > maxb:
                     c.feature("k>bins-of-every-chromosome")
                 elif k > minb:
